@@ -24,7 +24,7 @@ TIERS = {
 }
 RULE = ('case = SQLite table (1-4 columns of integer/bigint/real/double/text/varchar/boolean/datetime, 0-30 rows, any '
         'null pattern, text with quotes/backslashes/percent/unicode/empty strings, quoted column names) x rex off/on; '
-        'one perturbation step per discovered constraint. evaluations counts verification runs. Non-trivial = a '
+        'one perturbation step per discovered constraint (two for integer bounds: a whole and a fractional step). evaluations counts verification runs. Non-trivial = a '
         'perturbation step, or a closure on a table with data; distinct = fingerprint of (table spec, step).')
 ASSUMPTIONS = [
     'a perturbing row carries NULL in the other columns, so other constraints (their max_nulls) may fail too; only the targeted constraint is required to fail',
